@@ -94,3 +94,7 @@ Theorem C01_delete_count_exact : forall (U : umap) (lo hi : bytes),
   = RDel (Z.of_nat (length (p_scan U lo hi))) [].
 Proof. exact Proofs.DeleteResp.delete_count_exact. Qed.
 Print Assumptions C01_delete_count_exact.
+
+(* every remaining property theorem of this file *)
+Print Assumptions C01_range_explicit.
+Print Assumptions C01_range_wildcard.
